@@ -42,3 +42,60 @@ func lemmaC17InScale(k Key, i int, seventh bool) (root *ScaleNote, name string, 
 func lemmaC07Louder(a, b DynamicSign) (Velocity, Velocity) {
 	return a.Velocity(), b.Velocity()
 }
+
+// ghostCircle is the circle of fifths as NewCircleOfFifth builds it; the constructor takes no input, so its one
+// result is evaluated at package initialisation and lemmaC14Built states what the conversions rely on about it.
+var ghostCircle = NewCircleOfFifth()
+
+func lemmaC14Built() CircleOfFifth { return ghostCircle }
+
+// lemmaC14Step performs one conversion from any spelling the previous member is read by.
+// The laws about chains (inverses, involutions, independence of the spelling read) are its postconditions.
+func lemmaC14Step(c CircleOfFifth, conv KeyConversion, key Key) (CircleMember, error) {
+	switch conv {
+	case ParallelKey:
+		return c.Parallel(key)
+	case RelativeKey:
+		return c.Relative(key)
+	case DominantKey:
+		return c.Dominant(key)
+	default:
+		return c.SubDominant(key)
+	}
+}
+
+// lemmaC14Two chains two conversions, reading the intermediate member by the spelling mid.
+func lemmaC14Two(c CircleOfFifth, first, second KeyConversion, key, mid Key) (m2 CircleMember, ok bool) {
+	m1, err := lemmaC14Step(c, first, key)
+	if err != nil {
+		return m2, false
+	}
+	if _, in := m1.scales[mid]; !in {
+		return m2, false
+	}
+	m2, err = lemmaC14Step(c, second, mid)
+	if err != nil {
+		return m2, false
+	}
+	return m2, true
+}
+
+// lemmaC14Chain follows a chain of any length, reading each intermediate member by an arbitrary one of its spellings
+// (picks[i]); it returns false only if a pick is not a spelling of the member reached.
+func lemmaC14Chain(c CircleOfFifth, cc []KeyConversion, key Key, picks []Key) (m CircleMember, ok bool) {
+	cur := key
+	for i := 0; i < len(cc); i++ {
+		next, err := lemmaC14Step(c, cc[i], cur)
+		if err != nil {
+			return m, false
+		}
+		m = next
+		if i+1 < len(cc) {
+			if _, in := m.scales[picks[i]]; !in {
+				return m, true
+			}
+			cur = picks[i]
+		}
+	}
+	return m, true
+}
